@@ -152,6 +152,11 @@ func (s *Search) More() bool {
 	return time.Since(s.Env.start) < s.Env.Budget
 }
 
+// Base is the first random case index of this process: the driver restarts race-built
+// workers in rounds (the Go race runtime never frees the timer context of a synctest
+// bubble, about 85 KB per bubble) and gives each round its own index range.
+func (s *Search) Base() uint64 { return envUint("VERIF_INDEX_BASE", 0) }
+
 // Mine reports whether index i belongs to this shard.
 func (s *Search) Mine(i int) bool { return i%s.Env.NShards == s.Env.Shard }
 
